@@ -42,6 +42,7 @@ func checkC13(c *Ctx) {
 		c13Reaction(c, p, m)
 		lockDiscipline(c, p, "R13.6")
 		c02Newline(c, p, m)
+		writerSetNilSafe(c, p, m, "R13.3")
 		c02Counts(c, p, m)
 		c08Pools(c, p, m)
 		c01Gates(c, p, m, tags)
